@@ -133,7 +133,7 @@ def compare_static(J, ref, occ, tol, where, pairs_limit=40):
     jo, ju = np.asarray(J.occupied_set)[:len(oc)], np.asarray(J.unoccupied_set)[:len(un)]
     require(sorted(int(i) for i in jo) == oc and sorted(int(i) for i in ju) == un, lambda: "%s: compiled site lists %s / %s do not hold the occupied %s / unoccupied %s sites" % (where, jo.tolist(), ju.tolist(), oc, un))
     ind = np.asarray(J.index)
-    require(all(jo[ind[i]] == i for i in oc) and all(ju[ind[i]] == i for i in un), lambda: "%s: index table %s inconsistent with the site lists %s / %s" % (where, ind.tolist(), jo.tolist(), ju.tolist()))
+    require(all(0 <= ind[i] < len(jo) and jo[ind[i]] == i for i in oc) and all(0 <= ind[i] < len(ju) and ju[ind[i]] == i for i in un), lambda: "%s: index table %s inconsistent with the site lists %s / %s" % (where, ind.tolist(), jo.tolist(), ju.tolist()))
     EJ, ER = jcall("E()", J.E), ref.E()
     require(abs(EJ - ER) <= tol, lambda: "%s: compiled E %r differs from reference E %r on occupation %s" % (where, EJ, ER, occ.tolist()))
     nonzero = 0
